@@ -217,6 +217,7 @@ def run(ck):
             if inl_bad <= 1:
                 failing.append(({"src": jobs[2 * i]["src"], "src_inlined": jobs[2 * i + 1]["src"], "moved": sorted(set(moved))},
                                 "inlining tag defaults into the elements changes the rendered body"))
+    store_tie(ck, hb, failing, ok)
     ck.sample({"inlined_defaults_pair": [jobs[0]["src"][:300], jobs[1]["src"][:300]]} if jobs else {})
     ck.cov["rule"] = ("every (constructible tag, accepted attribute) x source level {mj-class, tag default, tag default over mj-all, mj-class over tag "
                       "default, element over mj-class}: document with the value on the element vs document with the value moved, bodies compared "
@@ -224,6 +225,81 @@ def run(ck):
                       "documents with their per-tag head defaults inlined into every element of that tag. Non-trivial: non-inert cell.")
     if common.report(ck, failing, ok, mlog, "coq/Properties/C09.v (cone) no longer compiles", limit=6, key=lambda w: w):
         return
+
+
+def store_tie(ck, hb, failing, ok):
+    """The attribute store built from the head (repeated tags / classes, several mj-attributes blocks, name= anywhere, two classes on
+    one element): the real store's answers vs Attr/Store.v under vm_compute; and the same through a rendered document."""
+    from checks import storelib
+    rng = ck.rng
+    cases = []
+    for cid in range(400 if ck.quick else 6000):
+        entries, blocks = storelib.gen_case(rng)
+        cases.append((cid, entries, blocks, storelib.queries(rng, entries)))
+    res, dead = common.run_jobs(hb, "store", [{"id": c[0], "src": storelib.to_src(c[2]), "queries": c[3]} for c in cases])
+    rows = []
+    for cid, entries, blocks, qs in cases:
+        r = res.get(cid)
+        if not r or "answers" not in r:
+            continue
+        rows.append((cid, entries, qs, r["answers"]))
+        ck.count("store:" + storelib.to_src(blocks), len(entries) >= 3, tags=["store-entries:%d" % min(len(entries), 9), "store-blocks:%d" % len(blocks)])
+    mism, errs = [], []
+    if ok and rows:
+        import concurrent.futures
+        shards = [rows[k:k + 100] for k in range(0, len(rows), 100)]
+
+        def work(a):
+            k, sh = a
+            eok, so, se, dt = vlib.coq_eval("c09_store_%d" % k, storelib.coq_cases(sh))
+            m = storelib.parse_mismatches(so) if eok else None
+            return m, (se or so)[-400:]
+        with concurrent.futures.ThreadPoolExecutor(16) as ex:
+            for m, e in ex.map(work, list(enumerate(shards))):
+                if m is None:
+                    errs.append(e)
+                else:
+                    mism += m
+    ck.cov["store_cases_evaluated_in_coq"] = len(rows) if not errs else 0
+    byid = {c[0]: c for c in cases}
+    for cid in mism[:3]:
+        c = byid[cid]
+        failing.append(({"src": storelib.to_src(c[2]), "queries": c[3][:8], "answers": res[cid]["answers"][:8]},
+                        "the attribute store (mj-attributes processing / mj-class merge) answers differently from Attr.Store (last definition in document order wins; "
+                        "unmentioned attributes are kept; later class wins)"))
+    if errs:
+        failing.append(({}, "evaluation of Attr.Store cases failed: " + errs[0]))
+    # end to end: the same through rendered documents
+    jobs = []
+    pairs = []
+    for i in range(60 if ck.quick else 600):
+        a1, a2 = rng.sample(["font-size", "line-height", "padding", "align"], 2)
+        vals = {"font-size": ["11px", "17px", "23px"], "line-height": ["1.1", "1.7", "2.3"], "padding": ["1px", "7px", "13px"], "align": ["left", "center", "right"]}
+        v1, v2, v3 = vals[a1]
+        w1 = vals[a2][0]
+        shape = i % 3
+        if shape == 0:      # two classes on one element defining the same attribute: the later class wins
+            head = '<mj-class %s="%s" name="ca" %s="%s"/><mj-class name="cb" %s="%s"/>' % (a1, v1, a2, w1, a1, v2)
+            elem, expect = '<mj-text mj-class="ca cb">x</mj-text>', '<mj-text %s="%s" %s="%s">x</mj-text>' % (a1, v2, a2, w1)
+        elif shape == 1:    # a second entry for the same tag keeps what it does not mention
+            head = '<mj-text %s="%s"/><mj-button %s="%s"/><mj-text %s="%s"/>' % (a1, v1, a1, v3, a2, w1)
+            elem, expect = '<mj-text>x</mj-text>', '<mj-text %s="%s" %s="%s">x</mj-text>' % (a1, v1, a2, w1)
+        else:               # ... also across two mj-attributes blocks, and overrides what it mentions
+            head = '<mj-text %s="%s" %s="%s"/></mj-attributes><mj-attributes><mj-text %s="%s"/>' % (a1, v1, a2, w1, a1, v2)
+            elem, expect = '<mj-text>x</mj-text>', '<mj-text %s="%s" %s="%s">x</mj-text>' % (a1, v2, a2, w1)
+        doc = lambda h, e: '<mjml><mj-head><mj-attributes>%s</mj-attributes></mj-head><mj-body><mj-section><mj-column>%s</mj-column></mj-section></mj-body></mjml>' % (h, e)
+        pairs.append((doc(head, elem), doc("", expect)))
+        jobs.append({"id": 2 * i, "src": pairs[-1][0]})
+        jobs.append({"id": 2 * i + 1, "src": pairs[-1][1]})
+    res2, dead = common.run_jobs(hb, "render", jobs)
+    for i, (a, b) in enumerate(pairs):
+        ra, rb = res2.get(2 * i), res2.get(2 * i + 1)
+        if not ra or not rb:
+            continue
+        ck.count(a, True, tags=["store-end-to-end"])
+        if body_of(ra["html"]) != body_of(rb["html"]):
+            failing.append(({"src": a, "src_with_values_on_the_element": b}, "values reaching the element through mj-class / repeated tag defaults differ from the same values written on the element"))
+            break
 
 
 def inline_defaults(d, skip=frozenset()):
